@@ -10,8 +10,14 @@
        by the file system (then, and only then, a stray info can remain - stated, not hidden);
        after a failed candidate the next candidate is tried (Put.try_candidates).
    (3) A failed write removes the file just created (/repo fix 6632bf5): atomic_write.
-   Proofs in Proofs/PutProofs.v. *)
-From TV Require Import Prelude.Str Prog.Prog Cmd.Put Proofs.ProgProofs Proofs.PutSafe Proofs.PutProofs.
+   (4) Failure means untouched: the single-argument procedure returns "failed" only in runs in which no move returned
+       normally, and after a move has returned normally it issues nothing but log lines (failed_argument_was_not_moved,
+       a two-state monitor in Proofs/FailedPut.v); on the file-system model, a trash-put that exits 74 for its single
+       argument has left every file and directory that existed exactly as it was, at the end and at every crash point
+       (failed_put_changes_nothing).  Not modelled: the inside of one shutil.move - a copying move that fails half-way
+       is the known finding of this property.
+   Proofs in Proofs/PutProofs.v, Proofs/FailedPut.v. *)
+From TV Require Import Prelude.Str Prog.Prog World.World Cmd.Put Proofs.ProgProofs Proofs.PutSafe Proofs.PutProofs Proofs.FailedPut.
 Open Scope N_scope.
 
 Theorem put_name_search_terminates : forall d fuel,
@@ -29,7 +35,25 @@ Theorem put_honest_under_faults : forall o,
 Proof. exact put_discipline_lemma. Qed.
 Print Assumptions put_honest_under_faults.
 
+Theorem failed_argument_was_not_moved : forall path o,
+  all_runs (fun t out => out = Done false -> forall src dst, ~ In (Move src dst, RUnit) t) (trash_single path o).
+Proof. exact failed_argument_was_not_moved_lemma. Qed.
+Print Assumptions failed_argument_was_not_moved.
+
+Theorem failed_put_changes_nothing : forall o p, po_paths o = [p] ->
+  all_runs (fun t out => out = Done EX_IOERR ->
+     forall s, wf (wfs s) -> wfd s = None ->
+     forall t1 t2 s1, t = t1 ++ t2 -> wrun s t1 s1 ->
+     forall q, wfs s q <> None -> wfs s1 q = wfs s q) (put_main o).
+Proof. exact failed_put_changes_nothing_lemma. Qed.
+Print Assumptions failed_put_changes_nothing.
+
 (* ---- non-vacuity ---- *)
+(* a run that ends with exit status 74 exists (the argument is not there), and so does one that meets an error on the way *)
+Example a_failing_run :
+  snd (run_oracle (put_main (mkput [$"/x"] None ModeUnspecified None false 0 [] 0 5))
+                  [RBool false; RBool false; RBool false; RBool false; RBool false; RBool false]) = Done EX_IOERR.
+Proof. vm_compute. reflexivity. Qed.
 Example persistent_eacces_ends_the_search :
   forall d, exists tr, run_oracle (try_persist 5 d 0 false) [RBool false; RErr (OSError 13)] = (tr, Done (PersistFailed (OSError 13))).
 Proof. intros d. eexists. vm_compute. reflexivity. Qed.
